@@ -31,7 +31,9 @@ def options(tier):
     base = [dict(ip=False, it=False, if_=False, smear=False), dict(ip=True, it=True, if_=False, smear=False),
             dict(ip=False, it=False, if_=True, smear=True), dict(ip=True, it=False, if_=False, smear=True),
             # the path need not be a function: a fixed frequency / a per-row array, with a time-varying intensity profile
-            dict(ip=False, it=False, if_=False, smear=False, pform='sc'), dict(ip=False, it=True, if_=False, smear=False, pform='arr')]
+            dict(ip=False, it=False, if_=False, smear=False, pform='sc'), dict(ip=False, it=True, if_=False, smear=False, pform='arr'),
+            # one pre-computed path array (tchans + 1 values, smeared) handed to every frame of the cadence: it is only read
+            dict(ip=False, it=False, if_=False, smear=True, pform='arr')]
     return base
 
 
@@ -379,8 +381,9 @@ def replay_cadence(p):
     if pform == 'sc':
         path = 4091.0
     elif pform == 'arr':
-        path = np.array([4090.5 + 0.75 * i for i in range(T)])
-    shifted_path = (lambda off: (lambda t: path(t + off))) if pform == 'fn' else (lambda off: path)
+        path = np.array([4090.5 + 0.75 * i for i in range(T + (1 if o['smear'] else 0))])       # float64 array, tchans (+1 when smeared) values
+    path_keep = path.copy() if pform == 'arr' else None
+    shifted_path = (lambda off: (lambda t: path(t + off))) if pform == 'fn' else (lambda off: (path_keep.copy() if pform == 'arr' else path))
     tgt.add_signal(path, tprof, fprof, bp, **kw)
     members = [m for m, fr in enumerate(frames) if any(fr is g for g in tgt.frames)]
     first = [m for m, fr in enumerate(frames) if fr is tgt.frames[0]][0]
